@@ -1,8 +1,8 @@
 (* C08 (extension), part 2: the public operations on the full document are sound edits — outside the known defect classes,
    which are predicates on the state the operation is applied to — and the history theorem over them. *)
 From Coq Require Import List ZArith NArith Bool Arith Lia.
-From IE Require Import Lib.C08Lib Gen.UndoGen Model.Undo Model.EditModel Model.EditOps Model.DocModel Model.DocOps
-  Proofs.UndoProofs Proofs.LayerProofs Proofs.EditProofs Proofs.ApiProofs Proofs.DocProofs.
+From IE Require Import Lib.C08Lib Gen.UndoGen Model.Undo Model.EditModel Model.EditOps Model.DocModel Model.DocOps Model.ScrollOps
+  Proofs.UndoProofs Proofs.LayerProofs Proofs.EditProofs Proofs.ApiProofs Proofs.DocProofs Proofs.ScrollProofs.
 Import ListNotations.
 Local Open Scope Z_scope.
 
@@ -457,13 +457,14 @@ Inductive liftable : (E -> res E) -> Prop :=
 | lf_center : liftable api_center
 | lf_make_layer_transparent : liftable api_make_layer_transparent
 | lf_stamp_layer_down : liftable api_stamp_layer_down
+| lf_scroll_area_lr left : liftable (api_scroll_area_lr left)
 | lf_ctl_cur n : liftable (ctl_cur n)
 | lf_ctl_mirror b : liftable (ctl_mirror b)
 | lf_ctl_caret x y : liftable (ctl_caret x y).
 
 Lemma liftable_sound f : liftable f -> bsound_edit f.
 Proof.
-  destruct 1; try (apply modelled_sound; constructor; assumption). apply api_stamp_layer_down_sound.
+  destruct 1; try (apply modelled_sound; constructor; assumption); [apply api_stamp_layer_down_sound|apply api_scroll_area_lr_sound].
 Qed.
 
 Inductive xmodelled : (XE -> res XE) -> (xstate -> Prop) -> Prop :=
